@@ -138,6 +138,24 @@ PLAN = {
         "trusted_base": BASE_TRUST,
         "assumptions": ["the primitives are ideal in the model: scrypt/age, OpenPGP S2K locking and minisign's KDF unwrap exactly under the wrapping password; decryption succeeds exactly with the private half of the pair encrypted to; a signature verifies exactly under the signing pair's public half (the real libraries are exercised by the correspondence, not proved)"],
     },
+    "C03": {
+        "streams": {
+            "quick": [fsp(60, 10, "C03", pipes="++;gzip++;+age+;++minisign;zstandard+pgp+pgp+smallest+memory;lz4+age+minisign+balanced;brotli++pgp+smallest;bzip2+pgp++balanced+memory;parallelgzip+age+pgp+smallest;parallelbzip2++minisign+balanced+memory;gzip+pgp+minisign+smallest;zstandard+age++balanced;lz4+++smallest+memory;brotli+age+minisign;bzip2++pgp+smallest", mode="roundtrip", rs="20,3,1,64", timeout=2400)],
+            "thorough": [fsp(8 * 3 * 3 * 3 * 2 * 2, 12, "C03", pipes=";".join("%s+%s+%s+%s+%s" % (c, e, sg, lv, ct) for c in ["", "gzip", "parallelgzip", "lz4", "zstandard", "brotli", "bzip2", "parallelbzip2"] for lv in ["fastest", "balanced", "smallest"] for e in ["", "age", "pgp"] for sg in ["", "minisign", "pgp"] for ct in ["file", "memory"]), mode="roundtrip", rs="20,1,2,3,7,64", timeout=14000)],
+        },
+        "generated": ["Stfs/Gen/Consts.lean (suffix tables of pkg/suffix, format lists of pkg/config)"],
+        "trusted_base": BASE_TRUST,
+        "assumptions": BASE_ASSUME + ["the compressors, ciphers and signature schemes are abstract lawful codecs in the theorems (decode(encode x) = x is a hypothesis); the real ones are exercised by the matrix on every configuration, not proved", "the encoders' output length is a function of the input for a given configuration (the two-pass write relies on it; checked by the matrix, where a mismatch shows as a failed close)"],
+    },
+    "C09": {
+        "streams": {
+            "quick": [{"stream": "leak", "args": ["-n", "24", "-workers", "16", "-rs", "20,3", "-pipes", "+age+;+pgp+;gzip+age+minisign;zstandard+pgp+pgp;lz4+age+pgp;brotli+pgp+minisign", "-keys", "/verif/work/keys"], "timeout": 2400}],
+            "thorough": [{"stream": "leak", "args": ["-n", "400", "-workers", "16", "-rs", "20,1,3,7", "-pipes", ";".join("%s+%s+%s" % (c, e, sg) for c in ["", "gzip", "parallelgzip", "lz4", "zstandard", "brotli", "bzip2", "parallelbzip2"] for e in ["age", "pgp"] for sg in ["", "minisign", "pgp"]), "-keys", "/verif/work/keys"], "timeout": 14000}],
+        },
+        "generated": ["Stfs/Gen/WritePaths.lean (pkg/operations/{archive,update,delete,move}.go: the statements before every tw.WriteHeader and every use of the tar writer; pkg/encryption/encrypt.go: EncryptHeader's replacement header; pkg/recovery/index.go: decryptHeader error handling)"],
+        "trusted_base": BASE_TRUST,
+        "assumptions": ["encryption is ideal in the model: a ciphertext reveals nothing but its length and opens only with the private half of the key it was made for (age / OpenPGP are exercised by the marker search, not proved)", "the tie for this property is the translator alone: the stream is an oracle on the real bytes (marker search, fixed-wrapper shape, wrong-key rebuild/restore), not a model/implementation comparison"],
+    },
     "C08": {
         "streams": {
             "quick": [{"stream": "forge", "args": ["-n", "16", "-len", "10", "-workers", "16", "-rs", "20,3", "-pipes", "++minisign;++pgp;+age+minisign;gzip+pgp+pgp;zstandard+age+pgp;lz4+pgp+minisign", "-keys", "/verif/work/keys"], "timeout": 2400}],
